@@ -740,3 +740,91 @@ func c01AcrossSuspension(c *core.Ctx, k1, k5 *oprf.PrivateKey, rk *rsa.PrivateKe
 		}
 	}
 }
+
+// c01ExtremeElements: honest type-5 runs in which a blinded element (request side) or an evaluated element (response
+// side) has an extreme canonical encoding - top bytes 7f ff, low bytes 00 00, top bytes 00 00 (found once by
+// cmd/mkextremes, re-derived here). Alone and inside a batch, first and last.
+func c01ExtremeElements(c *core.Ctx) {
+	var fx struct {
+		KeySeed   string `json:"key_seed"`
+		Challenge string `json:"challenge"`
+		Type5     []struct {
+			Kind, Side, Nonce, Blind, Element string
+		} `json:"type5"`
+	}
+	b, err := os.ReadFile(filepath.Join(core.VerifDir(), "fixtures", "type5-extreme-elements.json"))
+	must(err)
+	must(json.Unmarshal(b, &fx))
+	k5 := VOPRFKey(oprf.SuiteRistretto255, unhexs(fx.KeySeed))
+	chal := unhexs(fx.Challenge)
+	for fi, e := range fx.Type5 {
+		for shape := 0; shape < 3; shape++ {
+			if !c.Next() {
+				continue
+			}
+			r := c.CaseRng()
+			issuer := type5.NewBatchedPrivateIssuer(k5)
+			kid := issuer.TokenKeyID()
+			nonces := [][]byte{unhexs(e.Nonce)}
+			blinds := [][]byte{unhexs(e.Blind)}
+			switch shape {
+			case 1: // first of three
+				nonces = append(nonces, r.Bytes(32), r.Bytes(32))
+				blinds = append(blinds, c01EdgeScalar(r, 5, group.Ristretto255), c01EdgeScalar(r, 6, group.Ristretto255))
+			case 2: // last of three
+				nonces = append([][]byte{r.Bytes(32), r.Bytes(32)}, nonces...)
+				blinds = append([][]byte{c01EdgeScalar(r, 5, group.Ristretto255), c01EdgeScalar(r, 6, group.Ristretto255)}, blinds...)
+			}
+			c.Eval(1)
+			d := map[string]any{"element_kind": e.Kind, "side": e.Side, "shape": shape, "nonce": e.Nonce, "blind": e.Blind, "key_seed": fx.KeySeed}
+			bad := func(cls, what string) {
+				c.Violation("type5:extreme-element:"+cls, "type-5 honest issuance in which a "+e.Side+" element has an extreme encoding ("+e.Kind+"): "+what, d)
+			}
+			pan, pv, where := core.Guard(func() {
+				st, err := type5.NewBatchedPrivateClient().CreateTokenRequestWithBlinds(chal, nonces, kid, issuer.TokenKey(), blinds)
+				if err != nil {
+					bad("create-error", err.Error())
+					return
+				}
+				dec := new(type5.BatchedPrivateTokenRequest)
+				if !dec.Unmarshal(clone(st.Request().Marshal())) {
+					bad("request-undecodable", "issuer-side decoder rejected the client's request bytes")
+					return
+				}
+				resp, err := issuer.Evaluate(dec)
+				if err != nil {
+					bad("evaluate-error", "Evaluate refused an honest request: "+err.Error())
+					return
+				}
+				// the fixture still describes what it says?
+				idx := map[int]int{0: 0, 1: 0, 2: 2}[shape]
+				have := st.Request().BlindedReq[idx]
+				if e.Side == "response" {
+					_, k := refVarintDec(resp)
+					if k > 0 && len(resp) >= k+32*(idx+1) {
+						have = resp[k+32*idx : k+32*(idx+1)]
+					}
+				}
+				if hex.EncodeToString(have) != e.Element {
+					c.Class("info_extreme_element_fixture_stale")
+				}
+				toks, err := st.FinalizeTokens(clone(resp))
+				if err != nil || len(toks) != len(nonces) {
+					bad("finalize-error", fmt.Sprintf("FinalizeTokens: %v (%d tokens)", err, len(toks)))
+					return
+				}
+				for j, tok := range toks {
+					if !bytes.Equal(tok.Authenticator, RefVOPRF(oprf.SuiteRistretto255, k5, ref.TokenBytes(5, nonces[j], chal, kid, nil))) || issuer.Verify(tok) != nil {
+						bad("token-invalid", fmt.Sprintf("token %d is not the VOPRF evaluation of its input", j))
+						return
+					}
+				}
+				c.Class("extreme_element_encodings_valid")
+				c.Distinctf("extreme:%d:%d", fi, shape)
+			})
+			if pan {
+				bad("panic:"+where, pv)
+			}
+		}
+	}
+}
